@@ -7,6 +7,11 @@ from .values import SEQ, seq_of, seq_concat, le_bytes
 BW = 128
 
 
+def _mi():
+    from . import models_interp
+    return models_interp
+
+
 def bv(v, n=BW):
     return z3.BitVecVal(v, n)
 
@@ -30,11 +35,16 @@ def truthy(item):
     return z3.Or(*conds)
 
 
-MAXENC = 16
+MAXENC = 9
 
 
 def enc(v):
-    """minimal script-number encoding of v as a Seq-sorted ite term"""
+    """descriptor: the minimal script-number encoding of v"""
+    return ("num", v)
+
+
+def enc_seq(v):
+    """minimal script-number encoding of v as a Seq-sorted ite term (used for concrete evaluation)"""
     neg = v < 0
     m = z3.If(neg, -v, v)
     t = None
@@ -58,11 +68,52 @@ def enc_len_le(v, size):
 
 
 def boolseq(c):
-    return z3.If(c, seq_of([z3.BitVecVal(1, 8)]), z3.Empty(SEQ))
+    return ("bool", c)
 
 
 def S(item):
-    return seq_of(item)
+    return ("bytes", list(item))
+
+
+def item_equals(desc, units):
+    """z3 Bool: the concrete-length byte string `units` (list of bv8) is the item described by desc"""
+    kind = desc[0]
+    n = len(units)
+    if kind == "bytes":
+        want = desc[1]
+        if len(want) != n:
+            return z3.BoolVal(False)
+        return z3.And(*[a == b for a, b in zip(units, want)]) if n else z3.BoolVal(True)
+    if kind == "bool":
+        c = desc[1]
+        if n == 0:
+            return z3.Not(c)
+        if n == 1:
+            return z3.And(c, units[0] == 1)
+        return z3.BoolVal(False)
+    if kind == "num":
+        v = desc[1]
+        if n == 0:
+            return v == 0
+        if n > 16:
+            return z3.BoolVal(False)
+        neg = v < 0
+        m = z3.If(neg, -v, v)
+        bs = le_bytes(m, n)
+        bs = bs[:-1] + [z3.If(neg, bs[-1] | 0x80, bs[-1])]
+        fits = z3.ULT(m, bv(1 << (8 * n - 1)))
+        minimal = z3.BoolVal(True) if n == 1 else z3.UGE(m, bv(1 << (8 * (n - 1) - 1)))
+        return z3.And(v != 0, fits, minimal, *[a == b for a, b in zip(units, bs)])
+    raise KeyError(kind)
+
+
+def desc_to_seq(desc):
+    """Seq term of a descriptor (for concrete evaluation under a model)"""
+    if desc[0] == "bytes":
+        return seq_of(desc[1])
+    if desc[0] == "bool":
+        return z3.If(desc[1], seq_of([z3.BitVecVal(1, 8)]), z3.Empty(SEQ))
+    return enc_seq(desc[1])
 
 
 FAIL = ("fail",)
@@ -154,7 +205,7 @@ def spec(op, st, alt):
         return [(T, ok(seqs[:-1] + [enc(un[op](num(st[-1])))], aseqs))]
     if op == "OP_BIN2NUM":
         return [(T, ok(seqs[:-1] + [enc(num(st[-1]))], aseqs))] if need(1) else [(T, FAIL)]
-    binnum = {"OP_ADD": lambda a, b: a + b, "OP_SUB": lambda a, b: a - b, "OP_MUL": lambda a, b: a * b,
+    binnum = {"OP_ADD": lambda a, b: a + b, "OP_SUB": lambda a, b: a - b, "OP_MUL": lambda a, b: _mi().bigmul(a, b),
               "OP_MIN": lambda a, b: z3.If(a < b, a, b), "OP_MAX": lambda a, b: z3.If(a > b, a, b)}
     if op in binnum:
         if not need(2):
@@ -165,7 +216,7 @@ def spec(op, st, alt):
         if not need(2):
             return [(T, FAIL)]
         a, b = num(st[-2]), num(st[-1])
-        r = a / b if op == "OP_DIV" else z3.SRem(a, b)
+        r = _mi().bigdiv(a, b) if op == "OP_DIV" else _mi().bigrem(a, b)
         return [(b == 0, FAIL), (b != 0, ok(seqs[:-2] + [enc(r)], aseqs))]
     binbool = {"OP_BOOLAND": lambda a, b: z3.And(a != 0, b != 0), "OP_BOOLOR": lambda a, b: z3.Or(a != 0, b != 0), "OP_NUMEQUAL": lambda a, b: a == b,
                "OP_NUMNOTEQUAL": lambda a, b: a != b, "OP_LESSTHAN": lambda a, b: a < b, "OP_GREATERTHAN": lambda a, b: a > b,
@@ -187,7 +238,7 @@ def spec(op, st, alt):
         return [(T, ok(seqs[:-3] + [boolseq(z3.And(lo <= x, x < hi))], aseqs))]
     # ---- splice / bitwise / comparison of byte strings
     if op == "OP_CAT":
-        return [(T, ok(seqs[:-2] + [S(st[-2] + st[-1])], aseqs))] if need(2) else [(T, FAIL)]
+        return [(T, ok(seqs[:-2] + [S(list(st[-2]) + list(st[-1]))], aseqs))] if need(2) else [(T, FAIL)]
     if op == "OP_SPLIT":
         if not need(2):
             return [(T, FAIL)]
@@ -211,12 +262,12 @@ def spec(op, st, alt):
             rng.append(c)
             fits = enc_len_le(v, sz)
             if sz == 0:
-                outs.append((z3.And(c, fits), ok(seqs[:-2] + [z3.Empty(SEQ)], aseqs)))
+                outs.append((z3.And(c, fits), ok(seqs[:-2] + [("bytes", [])], aseqs)))
             else:
                 m = z3.If(v < 0, -v, v)
                 bs = le_bytes(m, sz)
                 bs = bs[:-1] + [z3.If(v < 0, bs[-1] | 0x80, bs[-1])]
-                outs.append((z3.And(c, fits), ok(seqs[:-2] + [seq_of(bs)], aseqs)))
+                outs.append((z3.And(c, fits), ok(seqs[:-2] + [("bytes", bs)], aseqs)))
             outs.append((z3.And(c, z3.Not(fits)), FAIL))
         outs.append((size < 0, FAIL))
         # sizes above 8 are outside the bound of this reference
@@ -248,9 +299,11 @@ def spec(op, st, alt):
     if op in hashes:
         if not need(1):
             return [(T, FAIL)]
-        from .models import hash_value
+        from .models import uf
+        from .values import be_bytes
         nm, bits = hashes[op]
-        return [(T, ok(seqs[:-1] + [hash_value(nm, bits, S(st[-1])).s], aseqs))]
+        h = uf(nm, SEQ, z3.BitVecSort(bits))(seq_of(st[-1]))
+        return [(T, ok(seqs[:-1] + [("bytes", be_bytes(h, bits // 8))], aseqs))]
     return None
 
 
